@@ -611,7 +611,7 @@ var c30Scenarios = []c30Scenario{
 	{"random-burst", 4, func(rt *c30RT) {
 		// 2-6 concurrent callers over the nodes (possibly several on one node), small random delays
 		// at the registry operations; no failures, no deactivation.
-		rt.noisePM, rt.noiseMax = 400, 2*time.Millisecond
+		rt.noisePM, rt.noiseMax = 700, 3*time.Millisecond
 		if rt.rng.Intn(2) == 0 {
 			rt.dwell(time.Duration(rt.rng.Intn(5)) * time.Millisecond)
 		}
@@ -913,6 +913,53 @@ var c30Scenarios = []c30Scenario{
 	}},
 }
 
+// c30ReplayRegistry replays the recorded operations on one key, in linearization order, against a
+// key -> owner register with NX put, and returns the first recorded result the model disagrees
+// with ("" when the history is a legal sequential history). This guards the oracle against the
+// fake registry (or its log) misbehaving: a reported overlap must not be an artefact of the fake.
+func c30ReplayRegistry(ops []vfcOp) (int, string) {
+	owner := ""
+	n := 0
+	for _, o := range ops {
+		if o.Injected || o.Out == "notrunning" {
+			continue
+		}
+		n++
+		want := ""
+		switch o.Op {
+		case "GrainExists":
+			want = fmt.Sprint(owner != "")
+		case "GetGrain":
+			want = "notfound"
+			if owner != "" {
+				want = owner
+			}
+		case "PutGrainIfAbsent":
+			if owner != "" {
+				want = "exists " + owner
+			} else {
+				owner = strings.TrimPrefix(o.Out, "claimed ")
+				want = "claimed " + owner
+			}
+		case "PutGrain":
+			owner = strings.TrimPrefix(o.Out, "ok ")
+			want = "ok " + owner
+		case "RemoveGrain":
+			want = "absent"
+			if owner != "" {
+				want = "removed " + owner
+			}
+			owner = ""
+		default:
+			continue
+		}
+		if want != o.Out {
+			return n, fmt.Sprintf("operation %s: a sequential NX register would answer %q", o.String(), want)
+		}
+	}
+	return n, ""
+}
+
 // ---- running a round and judging it -----------------------------------------------------------
 
 type c30Finding struct {
@@ -941,6 +988,8 @@ type c30Outcome struct {
 	Notes      []string
 	Unsettled  bool
 	Millis     int64
+	Replayed   int
+	ReplayBad  string
 }
 
 // quiesce waits until no registry operation is in flight and the logical clock stands still.
@@ -1060,6 +1109,7 @@ func c30RunRound(cl *vfcCluster, mon *c30Mon, scen c30Scenario, seed int64) c30O
 	out.Injected, out.GatesHit, out.Delays, out.Contended = rt.injected.Load(), rt.gatesHit.Load(), rt.delaysHit.Load(), rt.contended.Load()
 	ops := cl.Store.OpStrings(rt.key)
 	out.RegOps = len(ops)
+	out.Replayed, out.ReplayBad = c30ReplayRegistry(cl.Store.OpsFor(rt.key))
 	for _, c := range calls {
 		if !c.Done() {
 			out.Calls = append(out.Calls, fmt.Sprintf("n%d %s (still running)", c.Node, c.Kind))
